@@ -179,7 +179,7 @@ Value& MemberCONCATExpression::value(Context& ctx) const
         }
         else if (a0.type() == Type::NO_TYPE)
         {
-          rv->push_back(Value(Value::type_integer));
+          rv->push_back(Value(rv_type.levelDown()));
           return val;
         }
         break;
@@ -191,7 +191,7 @@ Value& MemberCONCATExpression::value(Context& ctx) const
         }
         else if (a0.type() == Type::NO_TYPE)
         {
-          rv->push_back(Value(Value::type_numeric));
+          rv->push_back(Value(rv_type.levelDown()));
           return val;
         }
         break;
